@@ -256,7 +256,9 @@ def property_assumptions(prop, extra_files=()):
             cur = []
             blocks.append(cur)
         elif cur is not None:
-            m = re.match(r"^([A-Za-z_][A-Za-z0-9_'.]*)\s*:", line)
+            # an axiom entry starts at column 0 with its qualified name; its type may follow on the same line after " : " or on
+            # indented continuation lines
+            m = re.match(r"^([A-Za-z_][A-Za-z0-9_'.]*)\s*(:|$)", line)
             if m:
                 cur.append(m.group(1))
     assum = {}
